@@ -1147,7 +1147,9 @@ def tsan_part(c, d):
             in_step = ["reb_simulation_step" in f for f in fn]
             in_ser = ["reb_simulation_save_to_stream" in f or "reb_server_start" in f for f in fn]
             in_int = ["reb_simulation_integrate_raw" in f for f in fn]
-            if not r.lstrip().startswith("data race"):
+            if "Location is file descriptor" in r and "client" in allf:
+                cat = "file descriptor number reused between the harness's client thread and the server thread (harness artefact)"
+            elif not r.lstrip().startswith("data race"):
                 cat = "other: " + r.strip().splitlines()[0][:60]
                 unexpected.append(r[:1500])
             elif "reb_simulation_start_server" in allf and "reb_server_start" in allf and not any(in_int):
@@ -1159,7 +1161,7 @@ def tsan_part(c, d):
                 unexpected.append(r[:1500])
             elif "reb_simulation_start_server" in allf and any(in_int) and not any(in_step):
                 cat = "r->server_data published by start_server without synchronisation, read by the running loop (rebound.c:842/868)"
-            elif ("main" in [f[0] for f in fn if f]) and ("reb_check_exit" in allf) and not any(in_ser):
+            elif ("main" in [f[0] for f in fn if f]) and ("reb_check_exit" in allf or any(in_int)) and not any(in_ser) and not any(in_step):
                 cat = "r->status resumed by a plain store from another thread (as the space key does, server.c:353-357)"
             elif any(in_step) and any(in_ser):
                 cat = "STEP vs SERIALISATION (mutual exclusion broken)"
